@@ -117,14 +117,16 @@ Definition twice (t : nat) : list choice := [Cl t; Cl t].
    (queued, or blocked on a full queue); the gate opens: hold finishes, boom is taken and panics; the in-flight callers run
    on; then `later` callers arrive, alternately fire-and-forget tick and value-returning get.  Result: outcome class per
    add caller, then per later caller. *)
-Definition fault_scn (m : rmodel) (interleave : bool) (k_hold k_boom k_add k_tick k_get wn later : nat) : list nat :=
+Definition fault_scn (m : rmodel) (mode : nat) (k_hold k_boom k_add k_tick k_get wn later : nat) : list nat :=
   let progs := ([Call k_hold []], 1) :: ([Call k_boom [999]], 1)
                :: map (fun i => ([Call k_add [i; 0; 1]], 1)) (seq 0 wn)
                ++ map (fun j => ([if Nat.even j then Call k_tick [j; 1] else Call k_get []], 1)) (seq 0 later) in
   let adds := seq 2 wn in
   let laters := seq (2 + wn) later in
-  let sched := twice 0 ++ [Ac] ++ twice 1 ++ flat_map twice adds
-               ++ [Ac; Ac] ++ (if interleave then map Cl adds else []) ++ [Ac]   (* hold returns, boom is taken, [blocked senders may slip in,] boom panics *)
+  (* mode 0: the adds are sent, then hold returns, boom is taken and panics; mode 1: blocked senders slip in after boom was
+     taken; mode 2: the adds are delayed (a loaded machine) and only start after the actor died *)
+  let sched := twice 0 ++ [Ac] ++ twice 1 ++ (if Nat.eqb mode 2 then [] else flat_map twice adds)
+               ++ [Ac; Ac] ++ (if Nat.eqb mode 1 then map Cl adds else []) ++ [Ac]
                ++ flat_map (fun t => [Cl t; Cl t; Cl t]) adds
                ++ flat_map (fun t => [Cl t; Cl t; Cl t]) laters in
   let s := @run nat nat (fun k a vs => if k =? k_boom then None else sem0 k a vs) sem_slf0 0 m 0 progs sched in
